@@ -127,7 +127,7 @@ fn main() {
             if args[1] == "isolate" {
                 driver::cmd_isolate(eng, &prop, seed, idx, &tee)
             } else {
-                driver::cmd_abortreplay(eng, &prop, seed, idx, &tee, &args.get(7).cloned().unwrap_or("/tmp/abort.replay.json".into()))
+                driver::cmd_abortreplay(eng, &prop, seed, idx, &tee, &args.get(7).cloned().unwrap_or("/tmp/abort.replay.json".into()), args.get(8).map(|s| s.as_str()).unwrap_or("abort"))
             }
         }
         Some("mkreplay") => {
